@@ -348,5 +348,128 @@ pub fn c18(opts: &Opts) -> Report {
     if want(opts, "timer") {
         run_family(&mut rep, opts, &FamilyRun { prop: "C18", part: "timer", cases: opts.n(if cfg!(miri) { 3 } else { 300 }, 8000), gen: &|s| gen::gen_timer(s, &to), set: ExecSet::StOnly, pools: &[], nontrivial: &|s, _| s.syncs > 1, predict: true, also: &[] });
     }
+    if want(opts, "faults") {
+        c18_faults(&mut rep, opts, &to);
+    }
     rep
+}
+
+/// Scripted clock answers (Synchronized / OutOfSync(lag)) at arbitrary
+/// synchronisation indices × tolerances {none, 0, mid, large}.
+///
+/// Oracle: for the first synchronisation whose reported lag exceeds the
+/// tolerance, the enclosing call must return `OutOfSync(lag)` and no handler
+/// may begin after it (the simulation is terminated); when no lag exceeds the
+/// tolerance (or no tolerance is set) no call may fail with OutOfSync and the
+/// usual prediction applies. Sound: the clock is the harness's own and its
+/// answers are logged at the moment they are given.
+fn c18_faults(rep: &mut Report, opts: &Opts, to: &gen::TimerOpts) {
+    use crate::rec::Ev;
+    let n = opts.n(if cfg!(miri) { 3 } else { 400 }, 10000);
+    let base = h2(opts.seed, 0xC18F);
+    for case in 0..n {
+        if !opts.mine(case) {
+            continue;
+        }
+        let cs = h2(base, case);
+        let mut rng = Rng::new(cs);
+        let mut spec = gen::gen_timer(cs, to);
+        let (pi, pc, _) = refint::predict(&spec);
+        let nsync = pi.syncs.len() + pc.iter().map(|p| p.syncs.len()).sum::<usize>();
+        let mut clock = vec![0u64; nsync + 2];
+        let lags = [1u64, 1_000, 1_000_000_000, 3_000_000_000];
+        for _ in 0..rng.range(1, 3) {
+            let i = rng.usize(clock.len());
+            clock[i] = *rng.pick(&lags) + 1;
+        }
+        spec.clock = clock;
+        spec.tolerance = *rng.pick(&[None, Some(0u64), Some(1_000), Some(2_000_000_000), Some(10_000_000_000)]);
+        let spec = Arc::new(spec);
+        let pred = refint::predict(&spec);
+        let execs = if cfg!(miri) { vec![Exec::st()] } else { vec![Exec::st(), Exec::st_controlled(rng.next(), 1, 200), Exec::mt(*rng.pick(&[2usize, 4]))] };
+        for (ei, ex) in execs.iter().enumerate() {
+            let replay = format!("{} --exec {}", opts.replay_args("faults", case), ei);
+            if let Some(only) = opts.rest.iter().position(|a| a == "--exec") {
+                if opts.rest.get(only + 1).and_then(|s| s.parse::<usize>().ok()) != Some(ei) {
+                    continue;
+                }
+            }
+            let ro = RunOpts { ctx: ("C18/hang/driver-call-never-returns".into(), replay.clone()), read_sinks: true, keep_events: true };
+            let tr = bench::run(&spec, ex, &ro);
+            rep.evaluations += 1;
+            let mut calls = vec![&tr.init];
+            calls.extend(tr.outcomes.iter());
+            // First synchronisation above tolerance.
+            let mut first_bad: Option<(u64, u64, u64)> = None; // (stamp, t, lag)
+            let mut answered_lag = 0u64;
+            for r in &tr.events {
+                if let Ev::ClockSync { t, answer } = &r.ev {
+                    if *answer > 0 {
+                        answered_lag += 1;
+                        if let Some(tol) = spec.tolerance {
+                            if answer - 1 > tol && first_bad.is_none() {
+                                first_bad = Some((r.stamp, *t, answer - 1));
+                            }
+                        }
+                    }
+                }
+            }
+            rep.count("synchronisations_answered_out_of_sync", answered_lag);
+            let mut viol = |sig: &str, d: String| rep.violation(sig.to_string(), format!("[faults exec={} tolerance={:?}] {}\nbench: {}", ex.label, spec.tolerance, d, spec.to_json().to_string()), replay.clone());
+            match first_bad {
+                Some((stamp, t, lag)) => {
+                    let is_init = tr.init.s_call < stamp && stamp < tr.init.s_ret;
+                    // The lag reported at initialisation is not gated by the
+                    // property (init synchronises once on the start time).
+                    if !is_init {
+                        match calls.iter().find(|c| c.s_call < stamp && stamp < c.s_ret) {
+                            Some(c) => {
+                                let exp = format!("outofsync:{}", lag);
+                                if c.res != exp {
+                                    let final_jump = c.t_after == t && !tr.events.iter().any(|r| matches!(&r.ev, Ev::HBegin { t: ht, .. } if *ht == t));
+                                    viol(if final_jump { "C18/lag-above-tolerance-ignored-on-final-jump-of-step-until" } else { "C18/lag-above-tolerance-not-reported" }, format!("synchronize({}) answered OutOfSync({} ns) > tolerance, but call {} ({}) returned {:?}", t, lag, c.idx as i64, checks::describe_cmd(&tr, c.idx), c.res));
+                                }
+                                for r in &tr.events {
+                                    if r.stamp > stamp {
+                                        if let Ev::HBegin { node, uid, t: ht, .. } = &r.ev {
+                                            viol("C18/model-code-ran-after-lag-above-tolerance", format!("handler of node {} uid {:x} at time {} began after synchronize({}) answered OutOfSync({} ns) > tolerance", node, uid, ht, t, lag));
+                                            break;
+                                        }
+                                    }
+                                }
+                            }
+                            None => viol("C18/synchronize-outside-call", format!("synchronize({}) was called outside any driver call", t)),
+                        }
+                        rep.distinct.insert(h2(cs, ei as u64));
+                        rep.count("lags_above_tolerance_judged", 1);
+                    }
+                }
+                None => {
+                    for c in &calls {
+                        if c.res.starts_with("outofsync") {
+                            viol("C18/outofsync-reported-without-lag-above-tolerance", format!("call {} returned {:?} although no synchronisation exceeded the tolerance", c.idx as i64, c.res));
+                        }
+                    }
+                    // Lags are ignored: the usual oracles apply.
+                    let (findings, seen) = checks::check_trace(&tr, Some(&pred));
+                    add_seen(rep, &seen);
+                    for f in findings {
+                        if f.prop == "C18" {
+                            rep.violation(f.sig.clone(), format!("[faults exec={}] {}", ex.label, f.detail), replay.clone());
+                        } else if f.prop == "C01" || f.prop == "C03" || f.prop == "C04" {
+                            rep.violation(format!("C18/via-{}", f.sig), format!("[faults exec={} tolerance={:?}: lags within tolerance must be ignored] {}", ex.label, spec.tolerance, f.detail), replay.clone());
+                        }
+                    }
+                    if answered_lag > 0 {
+                        rep.distinct.insert(h2(cs, 100 + ei as u64));
+                        rep.count("lags_within_tolerance_or_no_tolerance", 1);
+                    }
+                }
+            }
+            if rep.samples.len() < rep.max_samples && first_bad.is_some() && tr.events.len() < 80 {
+                let evs: Vec<Json> = tr.events.iter().filter(|r| matches!(r.ev, Ev::ClockSync { .. } | Ev::DrvCall { .. } | Ev::DrvRet { .. } | Ev::HBegin { .. })).take(40).map(|r| Json::Str(format!("{} {:?}", r.stamp, r.ev))).collect();
+                rep.samples.push(Json::obj().with("part", "faults").with("tolerance", format!("{:?}", spec.tolerance)).with("clock_script", format!("{:?}", spec.clock)).with("cmds", format!("{:?}", spec.cmds)).with("trace", Json::Arr(evs)));
+            }
+        }
+    }
 }
